@@ -3,7 +3,7 @@ from . import sesscheck as SC
 
 MODULE = "Props.C13"
 PROFILE = {"publish": 10, "ack": 12, "inbound": 8, "connect": 6, "fault": 2, "restart": 0.5, "call": 5, "response": 6,
-           "hostile": 14, "close": 0.2, "bigbuf": 0.3}
+           "hostile": 14, "close": 0.2, "bigbuf": 0.3, "stall": 5}
 
 
 def keep(l):
@@ -12,10 +12,11 @@ def keep(l):
 
 def run(ctx):
     want = ("outbound:forged-progress", "outbound:close-before-ack", "outbound:pubrel-without-publish")
-    mon = lambda tr, sc: SC.mon_sanity(tr) + [h for h in SC.mon_outbound(tr) if h[0] in want]
+    from .c18 import mon_connack
+    mon = lambda tr, sc: SC.mon_sanity(tr) + [h for h in SC.mon_outbound(tr) if h[0] in want] + mon_connack(tr, sc) + SC.mon_deadline(tr)
     v, stats, hist, samples, nd = SC.run_property(ctx, MODULE, PROFILE, 300, 6000, [mon], keep, length=(8, 30))
     return SC.finish(ctx, v, stats, hist, samples, nd,
                      "valid prefixes followed by hostile bytes: reserved/client-only types, 5-byte remaining length, zero and foreign "
                      "identifiers, out-of-order/unsolicited acknowledgements, wrong fixed lengths, topic beyond the packet, QoS 3, illegal SUBACK "
                      "codes and counts, random bytes, malformed/refusing/short CONNACKs; against clients with 0..n outbound transfers",
-                     SC.SESSION_ASSUMPTIONS + ["waiting time and real allocation are runtime facts: the model bounds the announced size (C13_size_bounded); ReadAll reads without a deadline (F16, known)"])
+                     SC.SESSION_ASSUMPTIONS + ["waiting time and real allocation are runtime facts: the model bounds the announced size (C13_size_bounded); whether a wait can be ended by PauseTimeout is observed as the armed state of the read deadline at every stall (time itself never passes in the harness)"])
